@@ -552,6 +552,12 @@ def check_bigrat(c):
         c.note_case(op + '|' + rat_key(x) + '|' + (rat_key(y) if y is not None else ''), big, op + '/' + fam)
         ni = norm_impl(op, io); nm = norm_model(mo)
         if fam.startswith('malformed'):
+            if io.startswith('("unknown-op")') or io.startswith('("bad-request")'):
+                # since fix 4b8e673 BigRat::deserialize (through which the hook builds its
+                # operands) rejects a zero denominator / an empty limb vector: such operands
+                # can no longer be constructed at all -- counted, not compared
+                c.dist['malformed-not-constructible'] = c.dist.get('malformed-not-constructible', 0) + 1
+                continue
             if ni[0] != nm[0] or (ni[0] == 'ok' and ni[1] != nm[1]) or (ni[0] == 'err' and ni[1] != nm[1]):
                 c.violation('bigrat-malformed-drift', {'kind': 'impl-vs-model', 'layer': 'L1 bigrat', 'line': li, 'impl': io, 'model': mo}, no_input=True)
             continue
